@@ -144,7 +144,7 @@ Qed.
 (* the left tail *)
 Lemma rank_left_tail x rho t : (2 <= n)%nat -> v_min v <= x -> x < m 0 -> t * (m 0 - v_min v) == x - v_min v ->
   rank v x = Ok (Some rho) ->
-  (x == v_min v /\ rho * T == 1 # 2) \/ (v_min v < x /\ rho * T == 1 + t * (w 0 / 2 - 1)).
+  (x == v_min v /\ rho * T == atm (nthc cs 0) / 2) \/ (v_min v < x /\ rho * T == atm (nthc cs 0) + t * (w 0 / 2 - atm (nthc cs 0))).
 Proof.
   intros Hn2 H1 H2 Ht Hr. apply (rank_case_of v Hwf) in Hr.
   pose proof (mlast_le_max v Hwf) as Hmax. pose proof (m_mono v Hwf 0 (n - 1) ltac:(lia) ltac:(lia)) as A1.
@@ -161,7 +161,8 @@ Qed.
 (* the right tail *)
 Lemma rank_right_tail x rho t : (2 <= n)%nat -> m (n - 1) < x -> x <= v_max v -> t * (v_max v - m (n - 1)) == v_max v - x ->
   rank v x = Ok (Some rho) ->
-  (x == v_max v /\ rho * T == T - (1 # 2)) \/ (x < v_max v /\ rho * T == T - (1 + t * (w (n - 1) / 2 - 1))).
+  (x == v_max v /\ rho * T == T - atm (nthc cs (n - 1)) / 2) \/
+  (x < v_max v /\ rho * T == T - (atm (nthc cs (n - 1)) + t * (w (n - 1) / 2 - atm (nthc cs (n - 1))))).
 Proof.
   intros Hn2 H1 H2 Ht Hr. apply (rank_case_of v Hwf) in Hr.
   pose proof (min_le_m0 v Hwf) as Hmin. pose proof (m_mono v Hwf 0 (n - 1) ltac:(lia) ltac:(lia)) as A1.
@@ -208,7 +209,12 @@ Proof.
     + assert (Hn2 : (2 <= n)%nat) by lia.
       destruct (Qlt_le_dec (v_min v) (m 0)) as [L|L].
       * destruct (rank_left_tail x rho 0 Hn2 ltac:(lra) ltac:(lra) ltac:(lra) HR) as [[_ Hr]|[F _]]; [|lra].
-        rewrite Hr. q2. split; lra.
+        rewrite Hr. destruct (atm_bounds (nthc cs 0)) as (S1 & S2 & S3). set (s0 := atm (nthc cs 0)) in *.
+        pose proof (c_w_ge1 (nthc cs 0)) as Hw1.
+        destruct HSC as [[D ->]|[(j & J & D1 & D2 & ->)|[D E]]].
+        -- fold (w 0). q2. split; lra.
+        -- rewrite inject_Z_plus. fold (w j) (w (S j)). pose proof (c_w_ge1 (nthc cs j)). pose proof (c_w_ge1 (nthc cs (S j))). q2. split; lra.
+        -- exfalso. pose proof (centre_lt cs 0 (n - 1) ltac:(lia) ltac:(lia)). q2. lra.
       * pose proof (rank_at_mean x rho 0 Hn2 ltac:(lia) ltac:(lra) HR) as Hr. rewrite Hr, HC0.
         pose proof (c_w_ge1 (nthc cs 0)) as Hw1.
         destruct HSC as [[D ->]|[(j & J & D1 & D2 & E)|[D E]]].
@@ -227,7 +233,12 @@ Proof.
     + assert (Hn2 : (2 <= n)%nat) by lia.
       destruct (Qlt_le_dec (m (n - 1)) (v_max v)) as [L|L].
       * destruct (rank_right_tail x rho 0 Hn2 ltac:(lra) ltac:(lra) ltac:(lra) HR) as [[_ Hr]|[F _]]; [|lra].
-        rewrite Hr. q2. split; lra.
+        rewrite Hr. destruct (atm_bounds (nthc cs (n - 1))) as (S1 & S2 & S3). set (s0 := atm (nthc cs (n - 1))) in *.
+        pose proof (c_w_ge1 (nthc cs (n - 1))) as Hw1.
+        destruct HSC as [[D E]|[(j & J & D1 & D2 & ->)|[D ->]]].
+        -- exfalso. pose proof (centre_lt cs 0 (n - 1) ltac:(lia) ltac:(lia)). q2. lra.
+        -- rewrite inject_Z_plus. fold (w j) (w (S j)). pose proof (c_w_ge1 (nthc cs j)). pose proof (c_w_ge1 (nthc cs (S j))). q2. split; lra.
+        -- fold (w (n - 1)). q2. split; lra.
       * pose proof (rank_at_mean x rho (n - 1) Hn2 ltac:(lia) ltac:(lra) HR) as Hr. rewrite Hr, HCl.
         pose proof (c_w_ge1 (nthc cs (n - 1))) as Hw1.
         destruct HSC as [[D E]|[(j & J & D1 & D2 & E)|[D ->]]].
@@ -251,9 +262,10 @@ Proof.
     rewrite ES.
     destruct (Qlt_le_dec (v_min v) (m 0)) as [L|L].
     + assert (X0 : v_min v <= x) by (rewrite Hx; nra). assert (X1 : x < m 0) by (rewrite Hx; nra).
+      pose proof (atm_heavy (nthc cs 0) A) as Hs1.
       destruct (rank_left_tail x rho t Hn2 X0 X1 ltac:(rewrite Hx; lra) HR) as [[E Hr]|[E Hr]].
-      * assert (t == 0) by nra. assert (wt == 1) by nra. rewrite Hr. q2. split; lra.
-      * rewrite Hr. q2. split; nra.
+      * assert (t == 0) by nra. assert (wt == 1) by nra. rewrite Hr, Hs1. q2. split; lra.
+      * rewrite Hr, Hs1. q2. split; nra.
     + assert (x == m 0) by (rewrite Hx; nra).
       pose proof (rank_at_mean x rho 0 Hn2 ltac:(lia) ltac:(lra) HR) as Hr. rewrite Hr, HC0. q2. split; lra.
   - (* right tail of the last centroid *)
@@ -267,9 +279,10 @@ Proof.
     + assert (X0 : x <= v_max v) by (rewrite Hx; nra).
       destruct (Qlt_le_dec t 1) as [L1|L1].
       * assert (X1 : m (n - 1) < x) by (rewrite Hx; nra).
+        pose proof (atm_heavy (nthc cs (n - 1)) A) as Hs1.
         destruct (rank_right_tail x rho t Hn2 X1 X0 ltac:(rewrite Hx; lra) HR) as [[E Hr]|[E Hr]].
         -- exfalso. rewrite Hx in E. nra.
-        -- rewrite Hr. q2. split; nra.
+        -- rewrite Hr, Hs1. q2. split; nra.
       * assert (t == 1) by lra. assert (x == m (n - 1)) by (rewrite Hx; nra).
         pose proof (rank_at_mean x rho (n - 1) Hn2 ltac:(lia) ltac:(lra) HR) as Hr. rewrite Hr, HCl. q2. split; nra.
     + assert (x == m (n - 1)) by (rewrite Hx; nra).
